@@ -8,7 +8,7 @@ sub-message chosen by the time-out value, ITDMA = sync:2 increment:13 slots:3 ke
 from __future__ import annotations
 from ..domains import IntSet
 from ..spec import itu
-from .common import flatten, unwrap_message, strip_wrappers, inline_flag
+from .common import check_derived_impls, flatten, unwrap_message, strip_wrappers, inline_flag
 
 B = itu.COMM_STATE_OFFSET
 
@@ -129,6 +129,7 @@ def run(ctx, chk):
             if t == 9 and got == {"sotdma"}:
                 continue      # reported above (selector unread)
             chk.ob(got == ws, "C16/coverage/%d/%s" % (t, sorted(got)), "type %d [%s]: access schemes decoded: %s, expected %s" % (t, cfg, sorted(got), sorted(ws)))
+    check_derived_impls(ctx, chk, "C16", cfgs, lambda short, full: full.startswith("messages::radio_status::"), 8, "that the reported communication state is the transmitted one")
     chk.cov["configs"] = cfgs
     chk.cov["programs"] = len(cfgs)
     chk.cov["partitions"] = n
